@@ -186,6 +186,11 @@ def run_model(spec):
                 raise Violation('C16/csv-not-repeatable', 'GenerateCSVtext(%r) differs from its first rendering; history %r' %
                                 (fmt, hist))
             csv_first.setdefault(fmt, txt)
+            # "the same stored series always give the same text": the text is a function of the stored series and the
+            # format alone - checked against an independent rendering (cell = format % value), so that text which depends
+            # on what was rendered earlier in the process is noticed even when it is stable within this history
+            from harness.props import c19
+            c19.check_table(txt, {k_: list(v_) for k_, v_ in es.TimeSeries.items()}, fmt, bucket='C16/csv-text')
         # invariant: stored results unchanged
         now = frozen(es.TimeSeries)
         if now != S:
